@@ -8,6 +8,7 @@ import (
 	"os"
 	"path/filepath"
 	"reflect"
+	"sort"
 	"strconv"
 	"strings"
 	"sync"
@@ -34,9 +35,10 @@ type c08Call struct {
 	Hot   int // index of the hot type, -1 for a cold filler
 	Cold  int // index of the cold filler type
 	Val   int // which of the pre-generated values of the type
-	Entry int // 0 ValidateStruct(tag) 1 StructForFn(rm, tag) 2 Struct(rm) 3 Struct()
+	Entry int // 0 ValidateStruct(tag) 1 StructForFn(rm, tag) 2 Struct(rm) 3 Struct() 4 StructForFns(nil, fns, tag)
 	Tag   string
 	RM    map[string]string
+	Fns   []string // names of per-call functions (Entry 4: StructForFns); each reports a marker naming the call
 }
 
 type c08Hist struct {
@@ -143,6 +145,23 @@ func c08Build(rng *rand.Rand, nHot, nCold, rounds, hotBlock int) *c08Hist {
 				add(c2)
 				add(c1)
 				k += 2
+			case 3, 4:
+				if rng.Intn(3) != 0 {
+					add(hotCall(ti))
+					break
+				}
+				// a call with per-call functions under names that occur in the type's own rules
+				// (unknown names become resolvable, built-ins are replaced) — then the plain call
+				c1 := hotCall(ti)
+				c1.Entry, c1.RM = 4, nil
+				c1.Tag = c08Tags[rng.Intn(3)]
+				c1.Fns = c08RuleNames(h.HotTypes[ti], c1.Tag, rng)
+				c2 := c1
+				c2.Entry, c2.Fns = 0, nil
+				add(c1)
+				add(c2)
+				add(c1)
+				k += 2
 			case 2: // override, then the plain call
 				c1 := hotCall(ti)
 				c1.Entry = 1 + rng.Intn(2)
@@ -167,6 +186,43 @@ func c08Build(rng *rand.Rand, nHot, nCold, rounds, hotBlock int) *c08Hist {
 		}
 	}
 	return h
+}
+
+// c08RuleNames collects rule names used anywhere in the type under the tag (plus two fixed ones).
+func c08RuleNames(t reflect.Type, tag string, rng *rand.Rand) []string {
+	seen := map[string]bool{}
+	var walk func(t reflect.Type, depth int)
+	walk = func(t reflect.Type, depth int) {
+		for t.Kind() == reflect.Ptr || t.Kind() == reflect.Slice || t.Kind() == reflect.Array {
+			t = t.Elem()
+		}
+		if t.Kind() != reflect.Struct || depth > 3 {
+			return
+		}
+		for i := 0; i < t.NumField(); i++ {
+			for _, item := range ref.SplitQuoted(t.Field(i).Tag.Get(tag), ',') {
+				name := item
+				if k := strings.IndexAny(name, "=|"); k >= 0 {
+					name = name[:k]
+				}
+				if name != "" && name != "either" && name != "botheq" && name != "exist" && name != "required" {
+					seen[name] = true
+				}
+			}
+			walk(t.Field(i).Type, depth+1)
+		}
+	}
+	walk(t, 0)
+	names := []string{}
+	for n := range seen {
+		names = append(names, n)
+	}
+	sort.Strings(names)
+	rng.Shuffle(len(names), func(a, b int) { names[a], names[b] = names[b], names[a] })
+	if len(names) > 3 {
+		names = names[:3]
+	}
+	return append(names, "phone")
 }
 
 func indexOf(s []string, x string) int {
@@ -208,12 +264,18 @@ func (h *c08Hist) exec(c c08Call) drive.Out {
 		return drive.Call(func() error { return valid.StructForFn(in, rm, c.Tag) })
 	case 2:
 		return drive.Call(func() error { return valid.Struct(in, rm) })
+	case 4:
+		fns := valid.Name2FnMap{}
+		for _, n := range c.Fns {
+			fns[n] = markerFn(fmt.Sprintf("fn_call%d_%s", c.ID, n))
+		}
+		return drive.Call(func() error { return valid.StructForFns(in, rm, fns, c.Tag) })
 	}
 	return drive.Call(func() error { return valid.Struct(in) })
 }
 
 func (c c08Call) describe() string {
-	e := []string{"ValidateStruct(v,%q)", "StructForFn(v,rm,%q)", "Struct(v,rm) [tag %q]", "Struct(v) [tag %q]"}[c.Entry]
+	e := []string{"ValidateStruct(v,%q)", "StructForFn(v,rm,%q)", "Struct(v,rm) [tag %q]", "Struct(v) [tag %q]", "StructForFns(v,nil,fns,%q)"}[c.Entry]
 	s := fmt.Sprintf(e, c.Tag)
 	if c.Hot >= 0 {
 		s += fmt.Sprintf(" hot-type#%d value#%d", c.Hot, c.Val)
@@ -222,6 +284,9 @@ func (c c08Call) describe() string {
 	}
 	if c.RM != nil {
 		s += fmt.Sprintf(" rm=%v", c.RM)
+	}
+	if c.Fns != nil {
+		s += fmt.Sprintf(" per-call functions=%v", c.Fns)
 	}
 	return s
 }
@@ -408,7 +473,7 @@ func parentC08(p *core.ParentCtx) *core.Result {
 		// one the reference expects under ANOTHER tag name (and not under the requested one), all
 		// configurations are equally wrong — invisible to the relational comparison above.
 		for pos, call := range h.Calls {
-			if call.Hot < 0 || call.RM != nil || strings.HasPrefix(base[pos], "PANIC") {
+			if call.Hot < 0 || call.RM != nil || call.Fns != nil || strings.HasPrefix(base[pos], "PANIC") {
 				continue
 			}
 			raw, okRaw := rawBase[call.ID]
